@@ -112,6 +112,77 @@ func Pre2(d *D, s *S) (*D, error) { return d, tr.HitErr("pre2") }
 func Post(d *D, s *S) error { return tr.HitErr("post") }
 `
 
+// round 5 (C07-m9 / C07-m10): two more kinds of call site - a converter named for a SLICE member (today: no match; a
+// tool that applies it element by element has to stop at the first failing element) and a converter whose source path runs
+// through a pointer member (a guard around it must not lose the error check).
+const c07Decls5 = `
+type PT struct{ A int }
+
+type S5 struct {
+	A  int
+	B  int
+	Xs []int
+	P  *PT
+}
+
+type D5 struct {
+	X  int
+	Y  int
+	Xs []int
+	U  int
+}
+
+func SC(i int) (int, error) {
+	if err := tr.HitErr("sconv1"); err != nil {
+		return 0, err
+	}
+	return i + 8, nil
+}
+
+func PC(i int) (int, error) {
+	if err := tr.HitErr("pconv1"); err != nil {
+		return 0, err
+	}
+	return i + 9, nil
+}
+
+func Post5(d *D5, s *S5) error { return tr.HitErr("post") }
+`
+
+var c07Site5Names = []string{"conv1", "sconv1", "pconv1", "conv2", "post"}
+var c07Site5Notes = []string{":conv C1 A X", ":conv SC Xs", ":conv PC P.A U", ":conv C2 B Y", ":postprocess Post5"}
+
+func familyC07Round5() []*scen.Cell {
+	var cells []*scen.Cell
+	scen.Odometer([]int{2, 2, 2, 2, 2, 2, 2, 2}, func(d []int) {
+		if d[1]+d[2] == 0 {
+			return // without one of the new sites the cell is one of the classic family
+		}
+		m := c07Meta{Present: make([]int, 11), Style: d[5], DstPtr: d[6], MErr: d[7]}
+		var notes []string
+		if m.Style == 1 {
+			notes = append(notes, ":style arg")
+		}
+		for i := 0; i < 5; i++ {
+			if d[i] == 1 {
+				notes = append(notes, c07Site5Notes[i])
+				m.Sites = append(m.Sites, c07Site5Names[i])
+			}
+		}
+		res := "D5"
+		if m.DstPtr == 1 {
+			res = "*D5"
+		}
+		if m.MErr == 1 {
+			res = "(" + res + ", error)"
+		}
+		setup := scen.SetupFile(false, c07Decls+c07Decls5, nil, []scen.MethodDecl{{Notations: notes, Sig: "Conv(*S5) " + res}})
+		setup = strings.Replace(setup, "package x\n", "package x\n\nimport \"example.com/m/tr\"\n", 1)
+		cells = append(cells, &scen.Cell{ID: "c07r5_" + scen.DigitsID(d), Family: "C07-fault-plans", Files: map[string]string{"setup.go": setup}, Meta: m})
+	})
+	return cells
+}
+
 type c07Extra struct{}
 
 type c07Meta struct {
@@ -175,6 +246,7 @@ func familyC07() []*scen.Cell {
 func init() {
 	register("C07", "fault_enumeration", func(e *Env) {
 		cells := familyC07()
+		cells = append(cells, familyC07Round5()...)
 		// static extras: an error-returning member that default matching could pick up, and a hook shared by two methods
 		for i, v := range []struct {
 			notes []string
@@ -205,7 +277,7 @@ func init() {
 			setup = strings.Replace(setup, "package x\n", "package x\n\nimport \"example.com/m/tr\"\n", 1)
 			cells = append(cells, &scen.Cell{ID: fmt.Sprintf("c07x_%d", i), Family: "C07-static-extras", Files: map[string]string{"setup.go": setup}, Meta: c07Extra{}})
 		}
-		e.Rep.Rule("functions with k = 1..5 error-capable call sites drawn from {preprocess hook, two top-level :conv, two nested-path :conv, :map of an error-returning getter, postprocess hook} (plus a depth-2 nested :conv, a converter whose error result is a concrete type, a preprocess hook returning (T, error), and :map of a path with an error-returning getter in the MIDDLE; all subsets of size 1..5) x style {return, arg} x destination {value, pointer} x method {with, without error result}; " +
+		e.Rep.Rule("functions with k = 1..5 error-capable call sites drawn from {preprocess hook, two top-level :conv, two nested-path :conv, :map of an error-returning getter, postprocess hook} (plus a depth-2 nested :conv, a converter whose error result is a concrete type, a preprocess hook returning (T, error), and :map of a path with an error-returning getter in the MIDDLE; all subsets of size 1..5; and, with two top-level :conv and the postprocess hook, a converter named for a slice member and a converter whose source path runs through a pointer member) x style {return, arg} x destination {value, pointer} x method {with, without error result}; " +
 			"dynamic: every function with an error result is run under ALL 2^k subsets of failing sites; each site returns its own sentinel error; oracle: with i the first site in the observed trace whose bit is set, the function returns exactly that sentinel and the trace ends at i; no executed site failing => nil error; " +
 			"static: a method without error result must be rejected or leave the path unmatched - an accepted output must not call any error-returning site; non-trivial = fault plan with a failing site")
 		br, err := e.newBehaveRunner()
@@ -258,7 +330,7 @@ func init() {
 					return nil
 				}
 				var fs []report.Finding
-				for _, fn := range []string{"C1(", "C2(", "NC(", "NC2(", "NNC(", ".GE()", "Pre(", "Post(", "Pre2(", ".GEN()"} {
+				for _, fn := range []string{"C1(", "C2(", "NC(", "NC2(", "NNC(", ".GE()", "Pre(", "Post(", "Pre2(", ".GEN()", "SC(", "PC(", "Post5("} {
 					body := bodyOnly(o.Out)
 					if strings.Contains(body, fn) {
 						fs = append(fs, report.Finding{Key: "C07|error-site-in-function-without-error-result|" + strings.Trim(fn, "(."), What: "method has no error result but the generated function calls the error-returning " + fn + ")"})
